@@ -100,6 +100,9 @@ RULE = (
     "directives/junk; non-trivial = >=3 distinct rewrite kinds applied. distinct by SHA-1 of the "
     "descriptor; per-knob / per-rewrite counts required"
 )
+RULE += (
+    " Round 9 added: CNAME conflicts with DNSKEY/CDNSKEY/DS/NSEC3PARAM (near misses of the neutral set)."
+)
 ASSUMPTIONS = [
     "vlib/zoneutil.extract + vlib/ref/canon.py (independent canonical form) decide content equality; "
     "vlib/ref/zonefile_writer.py encodes RFC 1035 5.1 / RFC 2308 4 / BIND $GENERATE rules independently",
